@@ -17,7 +17,7 @@
     PROVED ABOUT SINGLE ACCESSES (every state, hypotheses = what the executing thread has to know): the initial state has
     nested levels; marking CASes, writes to cells of nodes that are not on the level's list, the link CAS of
     insert_at_position and the unlink CASes of help_remove / try_remove_at preserve nested levels.
-    STILL STATED, NOT PROVED: nested levels at EVERY reachable state (C18_skip_levels_nested_statement) and hence the
+    STATED HERE, PROVED IN THE LAST SECTIONS OF THIS FILE (C18_skip_levels_nested, C18_skip_levels_sublists_quiescent): nested levels at EVERY reachable state (C18_skip_levels_nested_statement) and hence the
     quiescent form (C18_skip_levels_sublists_quiescent_statement; C18_skip_quiescent_from_nested is the implication).
     Missing: the Owicki-Gries part that discharges the hypotheses of the four access lemmas from the programs — per-level
     ghost sets "linked at level l at some time" with per-thread knowledge carried through find_position (as [vkn] of
@@ -194,3 +194,100 @@ Example C18_skip_quiescent_sweep :
   sweep_final_nomark ex_cfg ex_ths (map Z.of_nat (seq 100 20)) = [] /\
   sweep_final_nomark [4;0;0;2;0] [[[1;2;2]; [6;2]]; [[6;2]; [1;2;2]]; [[6;2]; [6;2]; [1;2;1]]] (map Z.of_nat (seq 200 20)) = [].
 Proof. vm_compute. repeat split. Qed.
+
+(** * nested levels at EVERY reachable state — programs of insert( key, height ) and contains( key )
+    (Proofs/SkipListNest.v: ghost level lists, per-thread knowledge "seen linked at level l", own-insertion progress;
+    Proofs/SkipListNestProg.v: the programs; Proofs/SkipListNestThm.v).  [ic_op o]: o is an insert with key < 8 and
+    1 <= height <= c_nMaxHeight, or a contains.  Programs with erase / extract_min / extract_max: still
+    C18_skip_levels_nested_statement above. *)
+From LV Require Import Proofs.SkipListNest Proofs.SkipListNestProg Proofs.SkipListNestThm.
+
+Theorem C18_skip_levels_nested_partial :
+  forall (fuel : nat) (nodes : list (nat * nat)) (ths : list (list SkipList.op)) c,
+    nodes_ok nodes -> Forall (Forall ic_op) ths -> (length ths <= 63)%nat ->
+    Conc.reach (SkipList.init_cfg fuel nodes ths) c ->
+    LevOK (Conc.shared c) /\ (forall p l, snd (nxt (Conc.shared c) p l) = false).
+Proof. exact skip_levels_nested_ic. Qed.
+Print Assumptions C18_skip_levels_nested_partial.
+
+(** the whole property (null-terminated lists, level l+1 an ordered sub-list of level l, all levels strictly sorted, the live
+    level-0 keys are the abstract set of a valid linearization of the client history) at EVERY reachable state without an
+    out-of-fuel event, in particular at every quiescent one, after arbitrary concurrent histories of insert and contains *)
+Theorem C18_skip_levels_sublists_partial :
+  forall (fuel : nat) (nodes : list (nat * nat)) (ths : list (list SkipList.op)) c,
+    nodes_ok nodes -> Forall (Forall ic_op) ths -> (length ths <= 63)%nat ->
+    Conc.reach (SkipList.init_cfg fuel nodes ths) c -> ~ SkipListLin.exhausted (Conc.trace c) -> ext_quiet (Conc.trace c) ->
+    levels_property nodes c.
+Proof. exact skip_levels_property_ic. Qed.
+Print Assumptions C18_skip_levels_sublists_partial.
+
+(** the membership form of Properties_C15.skip_levels_are_sublists_statement (marks ignored) *)
+Theorem C15_skip_levels_are_sublists_insert_contains :
+  forall (fuel : nat) nodes ths c (l m : nat) (q : ptr),
+    nodes_ok nodes -> Forall (Forall ic_op) ths -> (length ths <= 63)%nat ->
+    Conc.reach (SkipList.init_cfg fuel nodes ths) c -> (S l < MAXH)%nat ->
+    In q (chain (Conc.shared c) (S l) head m) -> exists m', In q (chain (Conc.shared c) l head m').
+Proof. exact skip_levels_membership_ic. Qed.
+Print Assumptions C15_skip_levels_are_sublists_insert_contains.
+
+(** non-vacuity: three threads insert towers of height 3, 2, 3 on the same two keys and look them up, bursty schedule; the
+    hypotheses hold, CASes fail, the run completes, the final state has three non-empty nested levels *)
+Definition ic_ths : list (list (list Z)) := [[[1;1;2]; [1;2;2]; [10;1]]; [[1;2;1]; [1;1;2]; [10;2]]; [[1;1;2]; [10;1]; [1;3;2]]].
+Example C18_skip_levels_nested_partial_nonvacuous :
+  let ths := map decode_ops ic_ths in
+  let r := Conc.run 6000 0 ex_sched (SkipList.init_cfg 60 (prefill_nodes [4;0;0;2;0]) ths) in
+  forallb (forallb (fun o => match o with OIns k h => Nat.ltb k 8 && Nat.leb 1 h && Nat.leb h MAXH | OContains _ => true | _ => false end)) ths = true /\
+  snd r = true /\ SkipListLin.exhaustedb (Conc.trace (fst r)) = false /\
+  existsb (fun e => match snd e with EvAcc KCas _ false => true | _ => false end) (Conc.trace (fst r)) = true /\
+  levokb (Conc.shared (fst r)) = true /\ length (lev_list (Conc.shared (fst r)) 2) = 3%nat.
+Proof. vm_compute. repeat split; auto. Qed.
+
+(** * nested levels at EVERY reachable state — ALL FIVE OPERATIONS: the two statements at the top of this file are PROVED
+    (the header comment "STATED HERE, PROVED IN THE LAST SECTIONS OF THIS FILE (C18_skip_levels_nested, C18_skip_levels_sublists_quiescent)" above is superseded by this section).
+    Proofs/SkipListNestE.v .. SkipListNestE9.v: Owicki-Gries invariant [EINV] with ghost state per node
+      ealk q = levels linked so far by the inserter, eanl q = levels q is on now (exactly 0 .. eanl q - 1: unlinking is
+      top-down), eadn q = the inserter gave up, pend q = unlink CASes whose level_unlinked() is outstanding, and
+        m_nUnlink q = eanl q + pend q + (height q - ealk q while the inserter is active);
+      while the inserter is active nothing of q is unlinked (help_remove's guard m_nUnlink == level + 1 fails, the fast
+      path of try_remove_at fails at level height - 1); a cell of a level that was linked and is off the list is marked;
+      marked cells never change.  Per-thread facts: "p was linked at level l" (then: its level-l cell unmarked => it is on the
+      level-l list NOW, which is what the pred CASes of insert / help_remove / try_remove_at establish by succeeding),
+      "cell (q, l) is marked and holds x", "at most b levels of q are linked, for good". *)
+From LV Require Import Proofs.SkipListNestE Proofs.SkipListNestE9.
+
+Theorem C18_skip_levels_nested : C18_skip_levels_nested_statement.
+Proof. exact skip_levels_nested. Qed.
+Print Assumptions C18_skip_levels_nested.
+
+Theorem C18_skip_levels_sublists_quiescent : C18_skip_levels_sublists_quiescent_statement.
+Proof. exact skip_levels_quiescent. Qed.
+Print Assumptions C18_skip_levels_sublists_quiescent.
+
+(** Properties_C15.skip_levels_are_sublists_statement for the levels below c_nMaxHeight (marks ignored: stronger), <= 63 threads *)
+Theorem C15_skip_levels_are_sublists :
+  forall (fuel : nat) nodes ths c (l m : nat) (q : ptr),
+    nodes_ok nodes -> Forall (Forall op_ok) ths -> (length ths <= 63)%nat ->
+    Conc.reach (SkipList.init_cfg fuel nodes ths) c -> (S l < MAXH)%nat ->
+    In q (chain (Conc.shared c) (S l) head m) -> exists m', In q (chain (Conc.shared c) l head m').
+Proof. exact skip_levels_membership. Qed.
+Print Assumptions C15_skip_levels_are_sublists.
+
+(** the m_nUnlink accounting invariant itself holds at every reachable state *)
+Theorem C18_skip_unlink_counter_invariant :
+  forall (fuel : nat) nodes ths c,
+    nodes_ok nodes -> Forall (Forall op_ok) ths -> (length ths <= 63)%nat ->
+    Conc.reach (SkipList.init_cfg fuel nodes ths) c -> exists a, EINV (Conc.shared c) a.
+Proof. exact skip_unlink_counter. Qed.
+Print Assumptions C18_skip_unlink_counter_invariant.
+
+(** non-vacuity: the contended run of [C18_skip_nested_every_step_nonvacuous] (insert / erase / extract_min / extract_max on
+    towers of height 3, failing CASes) satisfies the hypotheses of the theorem, which is applied to it (no computation of the state) *)
+Example C18_skip_levels_nested_nonvacuous :
+  LevOK (Conc.shared (fst (Conc.run 6000 0 ex_sched (SkipList.init_cfg 60 (prefill_nodes ex_cfg) (map decode_ops ex_ths))))).
+Proof.
+  apply (C18_skip_levels_nested 60%nat (prefill_nodes ex_cfg) (map decode_ops ex_ths)).
+  - apply prefill_nodes_ok.
+  - apply Forall_forall. intros os Hin. apply in_map_iff in Hin. destruct Hin as (x & <- & _). apply decode_ops_ok.
+  - cbn. repeat constructor.
+  - apply Conc.run_reach.
+Qed.
